@@ -209,7 +209,7 @@ func (d *diag) norm(e ast.Expr) string {
 		return x.Value
 	case *ast.SelectorExpr:
 		if _, isPkg := d.p.ObjOf(identOf(x.X)).(*types.PkgName); isPkg {
-			return types.ExprString(x)
+			return d.p.Src(x)
 		}
 		return d.norm(x.X) + "." + x.Sel.Name
 	case *ast.CallExpr:
